@@ -290,3 +290,6 @@ def run(tier, seed):
     col = run_shards(_shard, shards)
     return col, {"exhaustive": True, "scope": "lattice only", "levels_per_axis": {str(k): v for k, v in LEVELS.items()},
                  "functions": DIM_FUNCS + ["Michaelwicz"] + FIXED_FUNCS + ROBUST_FUNCS}
+
+
+RULE += (' Michaelwicz in every dimension of {1,3,4,6,7,8,9,11,12,20} that its constructor accepts; evaluation sequences also with a caller that only keeps the returned lists.')
